@@ -233,6 +233,12 @@ bool FileManager::readStream(std::istream &_istream, MeshT &_mesh,
             // Get face valence
             uint64_t val = 0u;
             sstr >> val;
+            if (val == 0u) {
+                if (verbosity_level_ >= 1) {
+                    std::cerr << "OVM File loading error: face #" << i << " has no halfedges." << std::endl;
+                }
+                return false;
+            }
 
             hes.clear();
             hes.reserve(static_cast<size_t>(val));
